@@ -27,11 +27,15 @@ Theorem C05_nowire_ungated_orig_refuted : ~ C05_write_read_stmt cfg_only_nowire_
 Proof. exact (C05_refute _ _ (proj1 LefW_nowire_ungated_refuted)). Qed.
 Theorem C05_w_prop_nosemi_orig_refuted : ~ C05_write_read_stmt cfg_only_w_prop_nosemi.
 Proof. exact (C05_refute _ _ (proj1 LefW_prop_nosemi_refuted)). Qed.
+Theorem C05_version_repeat_orig_refuted : ~ C05_write_read_stmt cfg_only_version_repeat.
+Proof. exact (C05_refute _ _ (proj1 LefW_version_repeat_refuted)). Qed.
 
 Check C05_w_site_orig_refuted : ~ C05_write_read_stmt cfg_only_w_site_orig.
 Check C05_nowire_ungated_orig_refuted : ~ C05_write_read_stmt cfg_only_nowire_ungated.
 Check C05_w_prop_nosemi_orig_refuted : ~ C05_write_read_stmt cfg_only_w_prop_nosemi.
+Check C05_version_repeat_orig_refuted : ~ C05_write_read_stmt cfg_only_version_repeat.
 
 Print Assumptions C05_w_site_orig_refuted.
 Print Assumptions C05_nowire_ungated_orig_refuted.
 Print Assumptions C05_w_prop_nosemi_orig_refuted.
+Print Assumptions C05_version_repeat_orig_refuted.
